@@ -229,6 +229,29 @@ def scen_clock(cfg):
     return scenario
 
 
+def scen_ahead(cfg):
+    """node-level schedule independence: (a) every step fires right after its scheduling rule (its groups were already selected) vs (b) the scheduling chain
+    simulates all ticks ahead before any group arrives and the steps fire afterwards -- records and outgoing messages must agree"""
+    from props import c04
+
+    def scenario(V):
+        node, rec, obs, inp = c04.build(V, dict(cfg, groups=True))
+        node2, rec2, obs2, inp2 = c04.build(V, dict(cfg, groups=True, ahead=True))
+        from props.c13 import _same, _conj
+        fields = lambda r: (r.seq, r.ts_start, r.ts_end, r.delay, r.ts_scheduled, r.phase_scheduled, r.ts_end_prev, r.ts_max, r.phase)
+        r1, r2 = [fields(r) for r in node._record_steps], [fields(r) for r in node2._record_steps]
+        strip = lambda rc: sorted([(n, [x for x in a if not hasattr(x, "__dataclass_fields__")]) for t, n, a in rc.tasks if n in ("push_ts_input", "push_input")], key=lambda x: x[0])
+        K = cfg["nticks"]
+        return {"a node records the same steps (times, drift, previous end, arrival bound) and announces the same messages whether its steps fire eagerly or after the scheduling chain has run ahead":
+                len(r1) == K and len(r2) == K and _conj(V, _same(V, r1, r2) + _same(V, strip(rec), strip(rec2))),
+                "the scheduling queues are balanced after K ticks in both schedules (one entry per tick in, one out)":
+                [len(q) for q in (node.q_ts_end_prev, node.q_ts_scheduled, node.q_ts_start)] == [len(q) for q in (node2.q_ts_end_prev, node2.q_ts_scheduled, node2.q_ts_start)]
+                and len(node.q_ts_end_prev) == 1 and len(node.q_ts_start) == 0,
+                "twin:all steps fired": all(o["fired"] for o in obs) and all(o["fired"] for o in obs2)}
+
+    return scenario
+
+
 def _free(t):
     from vlib.smt import free_vars
     return free_vars(t)
@@ -356,6 +379,8 @@ def worker(cfg, tier):
         scen = scen_prefix(cfg)
     elif kind == "clock":
         scen = scen_clock(cfg)
+    elif kind == "ahead":
+        scen = scen_ahead(cfg)
     else:
         scen = scen_run_vs_step(cfg)
         extra["Future"] = FakeFuture
@@ -386,6 +411,9 @@ def configs(tier):
         for nb, nnb in ((0, 0), (1, 1)):
             for rtf in (1, 10):
                 out.append(dict(kind="clock", rate=10, scheduling=sched, advance=False, n_blocking=nb, n_nonblocking=nnb, nticks=2, rtf=rtf))
+    for sched in ("frequency", "phase"):
+        for nb, nnb in ((1, 0), (0, 1)) + (((1, 1),) if th else ()):
+            out.append(dict(kind="ahead", rate=10, scheduling=sched, advance=False, n_blocking=nb, n_nonblocking=nnb, nticks=3))
     out.append(dict(kind="run_vs_step"))
     return out
 
